@@ -54,6 +54,7 @@ class FakeSocket:
         self._writes_to_gone = 0
         self.sent_total = 0
         self.blocking_waits = 0
+        self.tx_log = bytearray() if label.startswith("cl") else None  # wire capture for real clients
 
     # -- server side -------------------------------------------------------------------------
     def bind(self, addr):
@@ -109,6 +110,8 @@ class FakeSocket:
         peer = self.peer
         if peer is None:
             raise OSError(errno.ENOTCONN, "not connected")
+        if self.tx_log is not None:
+            self.tx_log += data
         if self.fail_after is not None:
             if len(data) > self.fail_after:
                 part = data[: self.fail_after]
